@@ -117,7 +117,7 @@ func replayOne(w *world, cap int, tick time.Duration, bi int, beh []step) behRes
 			if r != st.Res {
 				return mis("result", st.Res, r)
 			}
-			if r == "ok" || r == "inactive" {
+			if r == "ok" {
 				if !h.waitFeeCached(st.Tx) {
 					return mis("feeCache", "fee of "+st.Tx+" cached", "not cached within 5s")
 				}
@@ -169,7 +169,8 @@ func replayOne(w *world, cap int, tick time.Duration, bi int, beh []step) behRes
 	return res
 }
 
-// why a panic is the one the specification predicts: the transaction has an output to an inactive zone
+// panicClass names what is special about the transaction a call panicked on (no panic is specified: every panic of
+// a pool call is a violation; before fix 20862e4b an output to an inactive zone plus a refusal panicked addTxs)
 func panicClass(w *world, id string) string {
 	for _, o := range w.defs.Txs[id].Outs {
 		if o.Zone == "inactive" {
